@@ -1100,6 +1100,20 @@ class Fold:
                 tgt = unwrap(n["obj"])
                 if tgt.get("k") != "ref":
                     tgt = None
+            elif k == "call" and self.inline is not False and n.get("args"):
+                # an inlinable helper that takes a variable by non-const reference writes it
+                root = getattr(self, "root", None) or self.f
+                facts = getattr(root, "facts", None)
+                cands = [g for g in facts.find(n.get("callee") or "") if g.j.get("body") and g.j.get("internal") and len(g.j.get("params", [])) == len(n["args"])] if facts is not None else []
+                if len({tuple(p_.get("type") for p_ in g.j["params"]) for g in cands}) == 1:
+                    for p_, a_ in zip(cands[0].j["params"], n["args"]):
+                        ty = (p_.get("type") or "").strip()
+                        au = unwrap(a_)
+                        if ty.endswith("&") and not ty.startswith("const ") and au is not None:
+                            if au.get("k") == "ref" and "decl" in au:
+                                out.add(au["decl"])
+                            elif au.get("k") == "member":
+                                out.add(("field", show(au)))
             if tgt is None:
                 continue
             # x.y() = ..., v(i) = ...: the base object is modified
@@ -1167,9 +1181,19 @@ class Fold:
             return
         if s["k"] == "rangefor" and s.get("var") is not None:
             rn = unwrap(s.get("range"))
-            while rn is not None and rn.get("k") in ("stdinitlist", "cast", "construct") and (rn.get("sub") is not None or len(rn.get("args", [])) == 1):
-                rn = unwrap(rn["sub"] if rn.get("sub") is not None else rn["args"][0])
-            if rn is not None and rn.get("k") == "initlist" and 1 <= len(rn.get("args", [])) <= 8 and all(lit_value(a) is not None for a in rn["args"]) \
+
+            def strip_(x):
+                while x is not None and x.get("k") in ("stdinitlist", "cast", "construct", "bind", "cleanup") and (x.get("sub") is not None or len(x.get("args", [])) in (1, 2)):
+                    nxt = x["sub"] if x.get("sub") is not None else x["args"][0]
+                    x = unwrap(nxt)
+                return x
+            rn = strip_(rn)
+            if rn is not None and rn.get("k") == "ref" and rn.get("dk") == "local" and (rn.get("type") or "").lstrip().startswith("const ") and rn.get("decl") in self.f.decls \
+                    and self.f.decls[rn["decl"]].get("init") is not None:
+                # a const local container initialised from a literal list: iterate the list
+                rn = strip_(unwrap(self.f.decls[rn["decl"]]["init"]))
+            if rn is not None and rn.get("k") == "initlist" and 1 <= len(rn.get("args", [])) <= 256 and all(lit_value(a) is not None or unwrap(a).get("k") == "str" or
+                                                                                                         (strip_(unwrap(a)) or {}).get("k") == "str" for a in rn["args"]) \
                     and s["var"]["decl"] not in self.assigned_in(s["body"]):
                 # for (T v : {c0, c1, ...}) with literal elements: unrolled
                 for a in rn["args"]:
